@@ -23,9 +23,9 @@ RULE = ("case = one configuration with R x P injected sample vectors; an entry i
         "- counted per boundary type; a case is non-trivial if it has such an entry; distinct key = case index")
 ASSUMPTIONS = ["variables inside the bounds; magnitudes positive"]
 REQUIRED = {"quick": {"entries_checked": 40000, "outside.NONE": 800, "outside.TRUNCATE_BOTH": 800, "outside.MIRROR_BOTH": 800, "mirror_single_reflection": 300,
-                      "relative_magnitude_entries": 2000, "evaluator_rows_checked": 3000, "__nontrivial__": 400},
+                      "relative_magnitude_entries": 2000, "evaluator_rows_checked": 3000, "with_variable_scaler": 400, "__nontrivial__": 400},
             "thorough": {"entries_checked": 3000000, "outside.NONE": 30000, "outside.TRUNCATE_BOTH": 30000, "outside.MIRROR_BOTH": 30000, "mirror_single_reflection": 10000,
-                         "relative_magnitude_entries": 80000, "evaluator_rows_checked": 100000, "__nontrivial__": 15000}}
+                         "relative_magnitude_entries": 80000, "evaluator_rows_checked": 100000, "with_variable_scaler": 25000, "__nontrivial__": 15000}}
 N = {"quick": 3000, "thorough": 200000}
 NAMES = {1: "NONE", 2: "TRUNCATE_BOTH", 3: "MIRROR_BOTH"}
 
@@ -70,18 +70,29 @@ def run_case(case, obs):
         spec["samplers"] = [{"method": "verif/design", "options": {"samples": samples.tolist()}}]
         eff = samples
     case["spec"] = spec
-    cfg = ens.make_config(spec)
+    # a variable scaler must not change what happens in the user's coordinates (magnitudes and bounds are user-domain settings)
+    T = None
+    if rng.random() < 0.3:
+        from vlib.transforms import make_transforms  # noqa: PLC0415
+
+        case["tspec"] = {"vscale": np.round(10 ** rng.uniform(-0.7, 0.7, size=V), 3).tolist(), "voffset": np.round(rng.normal(size=V), 3).tolist() if rng.random() < 0.5 else None}
+        T = make_transforms(case["tspec"])
+        obs.count("with_variable_scaler")
+    cfg = ens.make_config(spec, T)
     ev = ens.RecordingEvaluator(spec)
-    ee = EnsembleEvaluator(cfg, None, ev, ens.plugin_manager())
+    ee = EnsembleEvaluator(cfg, T, ev, ens.plugin_manager())
+    xin = np.asarray(cfg.variables.initial_values, dtype=float)
     path = "combined" if rng.random() < 0.5 else "split"
     if path == "combined":
-        _, gres = ee.calculate(x, compute_functions=True, compute_gradients=True)
+        _, gres = ee.calculate(xin, compute_functions=True, compute_gradients=True)
         rows = ev.calls[0].variables[R:].reshape(R, P, V)
     else:
-        ee.calculate(x, compute_functions=True, compute_gradients=False)
-        (gres,) = ee.calculate(x, compute_functions=False, compute_gradients=True)
+        ee.calculate(xin, compute_functions=True, compute_gradients=False)
+        (gres,) = ee.calculate(xin, compute_functions=False, compute_gradients=True)
         rows = ev.calls[1].variables.reshape(R, P, V)
     got = np.asarray(gres.evaluations.perturbed_variables)
+    if T is not None:
+        got = T.variables.from_optimizer(got)      # judge in the user's coordinates
     m = np.where(ptypes == 2, (ub - lb) * mags, mags)
     raw = x + m * eff
     nontriv = False
@@ -94,7 +105,7 @@ def run_case(case, obs):
                 if ptypes[v] == 2:
                     obs.count("relative_magnitude_entries")
                 inside = lb[v] <= w <= ub[v]
-                tol = 1e-12 * (1 + abs(w))
+                tol = (1e-12 if T is None else 1e-9) * (1 + abs(w))
                 if inside:
                     ok = abs(g - w) <= tol
                     kind = "inside_value_altered"
@@ -104,7 +115,7 @@ def run_case(case, obs):
                     if t == 1:
                         ok, kind = abs(g - w) <= tol, "NONE_altered"
                     elif t == 2:
-                        ok, kind = g == min(max(w, lb[v]), ub[v]), "TRUNCATE_not_clipped"
+                        ok, kind = abs(g - min(max(w, lb[v]), ub[v])) <= (0.0 if T is None else tol), "TRUNCATE_not_clipped"
                     else:
                         b = lb[v] if w < lb[v] else ub[v]
                         refl = 2 * b - w
@@ -112,13 +123,13 @@ def run_case(case, obs):
                             obs.count("mirror_single_reflection")
                             ok, kind = abs(g - refl) <= tol, "MIRROR_not_reflected"
                         else:
-                            ok, kind = lb[v] <= g <= ub[v], "MIRROR_outside_bounds"
+                            ok, kind = lb[v] - (0 if T is None else tol) <= g <= ub[v] + (0 if T is None else tol), "MIRROR_outside_bounds"
                 if not ok:
                     obs.violation(kind, variable=v, btype=NAMES[t], got=float(g), raw=float(w), lb=float(lb[v]), ub=float(ub[v]),
                                   x=float(x[v]), magnitude=float(m[v]), sample=float(eff[r, p, v]))
                     return
     obs.count("evaluator_rows_checked", R * P)
-    if not np.array_equal(rows, got):
+    if not (np.array_equal(rows, got) if T is None else np.allclose(rows, got, rtol=1e-12, atol=1e-14)):
         obs.violation("evaluator_rows_differ_from_reported", rows=rows, reported=got)
     if nontriv:
         obs.nontrivial(case["i"])
